@@ -82,8 +82,21 @@ def c15(work, tier, seed):
         seen.add(sig)
         out.violations.append({"signature": sig, "what": "%s violated for a user token of class %s in mode %s (status %s)" % (v["guard"], v["kind"], v["event"].get("vm"), v["event"].get("status")),
                                "guard": v["guard"], "event": v["event"], "replay": "VERIF_SEED=%d ./bin/check C15 --tier %s" % (seed, tier)})
+    # at the place the tokens are issued: connection files of several users downloaded at the same time, with an
+    # administrator's template and the login name rendered as name::token - the token in a file is its user's
+    import fam_api as fa
+    bursts = []
+    for ut in ("enc", "signenc"):
+        for store in ("cookie", "file"):
+            cfg = {"tokenAuth": True, "smartCard": False, "auth": "openid", "sel": "unsigned", "hosts": [["H1", ":", "PA"], ["H1", ":", "PB"], ["H1", ":", "PE"]], "verifyIp": True, "idle": 0,
+                   "store": store, "split": False, "rdpDefaults": True, "userTok": ut, "template": "{{ username }}::{{ token }}"}
+            bursts.append({"id": "bu%s%s" % (ut, store), "kind": "burst", "cfg": cfg, "session": "authed", "param": "listed", "user": "", "peerIP": "", "xff": "", "replay": False})
+    bout, brep, bres = fa.generic("C15", work, tier, seed, "oidc", "OidcTrace", bursts, design, lambda v: "%s/%s/issue" % (v["guard"], v["a"]),
+                                  "user tokens in files issued at the same time", owns=lambda v: guard_property(v["guard"]) == "C15", jobs=4, tag="c15-issue")
+    out.violations += bout.violations
     cells = res["cover"]
     out.coverage = {
+        "issue_bursts": {"scripts": len(bursts), "evaluations": bout.coverage.get("evaluations")},
         "states": design["distinct"], "transitions": design["generated"], "traces_validated_against_impl": 1,
         "evaluations": res["lines"], "distinct_nontrivial": len(cells),
         "cells": sorted("%s/%s->%s" % tuple(c) for c in cells),
